@@ -35,11 +35,22 @@ def parse(L, data, opts=None, target='new', err_policy='accept', handler_program
     res.problems = []
     res.rec = None
     keep = []
+    rep = [0]
 
     if err_policy != 'default':
         def ecb(code, line, col, text, length, data_):
             try:
                 idx = len(res.errors)
+                # the same error at the same place, ten thousand times in a row: the parser is not consuming its
+                # input (it would go on until memory runs out); stop the parse and say so
+                if res.errors and res.errors[-1] == (code, line, col, length):
+                    rep[0] += 1
+                    if rep[0] > 10000:
+                        if rep[0] == 10001:
+                            res.problems.append(('parse:no-progress:%d' % code, 'error %d was reported more than 10000 times in a row at line %d column %d: the parse does not advance' % (code, line, col)))
+                        return 7777
+                else:
+                    rep[0] = 0
                 res.errors.append((code, line, col, length))
                 if line < 1:
                     res.problems.append(('callback:error:line-zero', 'error callback for code %d with line %d' % (code, line)))
